@@ -26,3 +26,10 @@ func VerifSetReadTimeout(d time.Duration) time.Duration {
 	timeout = d
 	return old
 }
+
+// VerifHandleError exposes handleError, the translation of a network-layer
+// error into the package's error values, so that it can be compared case by
+// case with its model.
+func VerifHandleError(err error) error {
+	return handleError(err)
+}
